@@ -192,14 +192,26 @@ func VerifC08_DeleteChannelVsCreate() {
 // "Deleting a topic disconnects its consumers": a SUB that was answered OK is either attached to
 // a channel that exists (reachable from the daemon's topic map, not exiting, listing this
 // consumer) or its connection has been closed; nothing belonging to the deleted topic stays open.
-func VerifC08_SubVsTopicDelete() {
+func VerifC08_SubVsTopicDelete() { verifSubVsTopicDelete(1, verifrt.Choice("ephemeral-topic", 2) == 1) }
+
+// The same race for an ephemeral topic with TWO preemptions (thorough tier only: about 10^5
+// interleavings): deep enough for the stale auto-delete callbacks of the dying topic to meet
+// the topic SUB re-creates under the same name.
+func VerifC08_SubVsEphemeralTopicDeleteDeep() {
+	if verifrt.Tier() == 0 {
+		verifrt.Reach("quick-tier-leaves-the-deep-variant-to-the-thorough-tier", true)
+		return
+	}
+	verifSubVsTopicDelete(2, true)
+}
+
+func verifSubVsTopicDelete(preemptions int, ephemeral bool) {
 	o := verifOpts()
 	o.MemQueueSize = 1
 	n := verifShellNSQD(o)
 	disk := verifNewDisk()
 	verifrt.StubNative("(*github.com/nsqio/nsq/nsqd.NSQD).Notify", verifNotifyNop)
-	verifrt.Preemptions(verifrt.Bound("sub-vs-delete-preemptions", 1, 2))
-	ephemeral := verifrt.Choice("ephemeral-topic", 2) == 1
+	verifrt.Preemptions(preemptions)
 	tag, topicName, chanName := "durable", "t", "b"
 	if ephemeral {
 		tag, topicName, chanName = "ephemeral", "e#ephemeral", "b#ephemeral"
@@ -391,4 +403,57 @@ func VerifC08_LastTwoConsumersLeaveTogether() {
 	verifrt.Assert(len(c.clients) == 0, "both-consumers-removed")
 	verifrt.Assert(deleted == 1, "ephemeral-channel-auto-deleted-exactly-once-when-the-last-consumers-leave-together")
 	verifrt.Reach("both-left", len(c.clients) == 0)
+}
+
+// SUB racing the deletion of its CHANNEL (/channel/delete, or the auto-delete of an ephemeral
+// channel whose last consumer leaves: both run Topic.DeleteExistingChannel), every interleaving
+// within the preemption bound. "Deleting a channel disconnects its consumers": a SUB answered OK
+// is either attached to a channel that exists (in the topic's map, not exiting, listing this
+// consumer - the old one before the delete, or a fresh one after it) or its connection has been
+// closed by the delete; a refused SUB is attached to nothing. The check-and-attach in
+// Channel.AddClient must be atomic with respect to Channel.exit for that.
+func VerifC08_SubVsChannelDelete() {
+	o := verifOpts()
+	o.MemQueueSize = 1
+	n := verifShellNSQD(o)
+	disk := verifNewDisk()
+	verifrt.StubNative("(*github.com/nsqio/nsq/nsqd.NSQD).Notify", verifNotifyNop)
+	verifrt.Preemptions(verifrt.Bound("sub-vs-channel-delete-preemptions", 1, 2))
+	var cl *clientV2
+	var conn *verifConn
+	var other *verifConsumer
+	var t *Topic
+	verifrt.Atomic(func() {
+		// (topic and channel are put in place directly: the main thread then has no rendezvous with
+		// the topic pump before the race starts, which keeps the native schedule replay simple)
+		t = NewTopic("t", n, func(x *Topic) { n.DeleteExistingTopic(x.name) })
+		n.topicMap["t"] = t
+		b := NewChannel("t", "b", n, func(c *Channel) { t.DeleteExistingChannel(c.name) })
+		t.channelMap["b"] = b
+		other = &verifConsumer{}
+		b.AddClient(7, other)
+		cl, conn = verifClient(n, 1, nil)
+	})
+	p := &protocolV2{nsqd: n}
+	var err, derr error
+	verifrt.Go("delete", func() { derr = t.DeleteExistingChannel("b") })
+	verifrt.Go("sub", func() {
+		_, err = p.SUB(cl, [][]byte{[]byte("SUB"), []byte("t"), []byte("b")})
+	})
+	verifrt.Join()
+	verifrt.Assert(derr == nil, "channel-delete-succeeds")
+	verifrt.Assert(other.closed >= 1, "channel-delete-disconnects-the-existing-consumer")
+	if err == nil {
+		ch := cl.Channel
+		attached := false
+		if ch != nil && !ch.Exiting() && t.channelMap["b"] == ch {
+			_, attached = ch.clients[cl.ID]
+		}
+		verifrt.Assert(attached || conn.closed >= 1, "acknowledged-subscriber-is-on-a-live-channel-or-disconnected-by-the-channel-delete")
+		verifrt.Reach("sub-ok-on-the-recreated-channel", attached)
+	} else {
+		verifrt.Assert(cl.Channel == nil, "refused-subscriber-is-not-attached")
+	}
+	disk.assertNoLeak(n, "channel-delete")
+	verifrt.Reach("channel-delete:sub-refused-or-disconnected", err != nil || conn.closed >= 1)
 }
